@@ -137,3 +137,32 @@ def attr_writes(func):
                 if k and "." in k:
                     out.append((k, n, "item-" + kind))
     return out
+
+
+def fold_cmd_list(T, func, node, expr):
+    """Fold an expression that should be a list/tuple of command constants to a tuple of bytes, else None."""
+    t = T.term(func, node, expr)
+    return cmds_of_term(t)
+
+
+def cmds_of_term(t):
+    if t[0] == "c" and isinstance(t[1], (tuple, list)) and all(isinstance(x, bytes) for x in t[1]):
+        return tuple(t[1])
+    if t[0] in ("list", "tuple"):
+        out = []
+        for x in t[1:]:
+            if x[0] == "c" and isinstance(x[1], bytes):
+                out.append(x[1])
+            else:
+                return None
+        return tuple(out)
+    if t[0] == "CONCAT" or (t[0] == "op" and t[1] == "+"):
+        parts = t[1:] if t[0] == "CONCAT" else t[2:]
+        out = []
+        for p in parts:
+            c = cmds_of_term(p)
+            if c is None:
+                return None
+            out.extend(c)
+        return tuple(out)
+    return None
